@@ -47,7 +47,8 @@ def locate(k0: bool, k1: bool, k2: bool, as_call: bool) -> bool:
     pre: True
     post: _
     """
-    tick()
+    if tick():
+        return True
     k = bits(k0, k1, k2)
     with NoTracing():
         code = PROGRAMS[k]
@@ -94,7 +95,8 @@ def real_programs(k0: bool, k1: bool, k2: bool, k3: bool, evaluate: bool) -> boo
     pre: True
     post: _
     """
-    tick()
+    if tick():
+        return True
     k = bits(k0, k1, k2, k3)
     with NoTracing():
         code = REAL_PROGRAMS[k]
